@@ -12,6 +12,7 @@ func initIterator() {
 	RegisterNativeClass("Std::Iterator", "value.IteratorInterface")
 
 	IteratorBaseMixin = NewMixin()
+	IteratorBaseMixin.IncludeMixin(IterableBaseMixin)
 	IteratorInterface.AddConstantString("Base", Ref(IteratorBaseMixin))
 	RegisterNativeMixin("Std::Iterator::Base", "value.IteratorBaseMixin")
 }
